@@ -188,12 +188,17 @@ static void *bus_timer(void *arg) { (void) arg;
 static int slow_hook(int node, const rc_msg_t *m) {
 	if (slow_mode == 0 && node == slow_node && m->type == MSG_FEATURE_SET && m->dlen >= 2) { uint8_t d[2] = {m->data[0], m->data[1]}; late_add(node, MSG_FEATURE, d, 2); return 1; }
 	if (slow_mode == 1 && node == 0 && m->type == MSG_NODETAB_GETNEXT && ++slow_rows_seen == slow_rows) { uint8_t on = 1, off = 0; sb_send(slow_node, MSG_STALL, &on, 1); late_add(slow_node, MSG_STALL, &off, 1); return 0; }
+	/* modes 2..4: the command station confirms the track-output command late / never / with another state (the commanded
+	 * start-up sequence does not depend on what the station reports back) */
+	if (slow_mode >= 2 && m->type == MSG_CS_SET_STATE && node >= 0 && m->dlen >= 1 && m->data[0] != 0xFF) {
+		uint8_t st = m->data[0]; if (slow_mode == 2) late_add(node, MSG_CS_STATE, &st, 1); else if (slow_mode == 4) { st = 0x00; sb_send(node, MSG_CS_STATE, &st, 1); } return 1; }
 	return 0;
 }
 static void slow_child(const void *job, size_t n) {
 	vs_dev_t devs[VS_MAXDEV]; int nd; size_t pl; const uint8_t *p = job_parse(job, n, devs, &nd, &pl);
 	static const int NF[5] = {1, 8, 9, 10, 12}; static const uint64_t DL[4] = {500000, 1500000, 3000000, 5000000};
-	int nf = NF[p[0] % 5]; slow_delay = DL[p[0] / 5 % 4]; slow_mode = p[0] / 20; nlate = 0; timer_stop = 0; slow_rows_seen = 0;
+	int nf = NF[p[0] % 5]; slow_delay = DL[p[0] / 5 % 4]; slow_mode = p[0] / 20;
+	if (p[0] >= 40) { nf = 1; slow_mode = p[0] < 44 ? 2 : p[0] == 44 ? 3 : 4; slow_delay = DL[(p[0] - 40) % 4]; } nlate = 0; timer_stop = 0; slow_rows_seen = 0;
 	c20_case_t c = { 1, 1, 1, 0x3F, 7, 0, 0 }; static cm_model_t m; build(&m, &c);
 	m.b[1].nfeatures = nf; for (int k = 0; k < nf; k++) m.b[1].features[k] = (cm_feature_t) {(uint8_t) (0x10 + k), (uint8_t) (k + 1)};
 	hx_child_begin(NULL, 0, 0, NULL, 0, 120ull * 1000000ull);
@@ -201,8 +206,15 @@ static void slow_child(const void *job, size_t n) {
 	SB.on_msg = slow_hook;
 	int t = vs_spawn(bus_timer, NULL);
 	int rc = hx_start_normal(0);
-	timer_stop = 1; vs_join_tid(t); hx_quiesce();
-	char what[160]; snprintf(what, sizeof what, "start-up, oc1 with %d features %s %.1f s", nf, slow_mode ? "stalled at the end of the enumeration for" : "answers every feature setting after", (double) slow_delay / 1e6);
+	/* what start-up has commanded may still be HELD by flow control behind an unanswered request when the call returns: let the
+	 * late answers arrive (<= 5 s), let unanswered requests expire (2 s), and give every node one more event, because the library
+	 * notices an expiry only at the next send to / message from the node (C03).  Only then is the transcript judged. */
+	vs_sleep_us(7000000); timer_stop = 1; vs_join_tid(t); hx_quiesce();
+	if (!rc) { for (int b = 0; b < m.nb; b++) if (cm_board_connected(&m, b)) bidib_ping(m.b[b].id, 0); bidib_flush(); hx_quiesce(); }
+	char what[200]; snprintf(what, sizeof what, "start-up, oc1 with %d features %s %.1f s", nf, slow_mode ? "stalled at the end of the enumeration for" : "answers every feature setting after", (double) slow_delay / 1e6);
+	if (slow_mode == 2) snprintf(what, sizeof what, "start-up, track outputs confirm their state %.1f s late", (double) slow_delay / 1e6);
+	if (slow_mode == 3) snprintf(what, sizeof what, "start-up, track outputs never confirm their state");
+	if (slow_mode == 4) snprintf(what, sizeof what, "start-up, track outputs answer the GO command with state OFF");
 	if (rc) res_violation("start-failed", "%s: bidib_start_pointer returned %d", what, rc);
 	else { int reset_at = 0; for (int i = 0; i < SB.nlog; i++) if (SB.log[i].type == MSG_SYS_RESET) reset_at = i; check_segment(&m, reset_at, SB.nlog, what); }
 	int delivered = 0; for (int i = 0; i < nlate; i++) delivered += late[i].sent;
@@ -212,7 +224,8 @@ static void slow_child(const void *job, size_t n) {
 	res_finish();
 }
 static size_t slow_gen(long idx, uint8_t *payload, char *human, size_t hn) { static const int NF[5] = {1, 8, 9, 10, 12}; static const char *DL[4] = {"0.5", "1.5", "3", "5"};
-	payload[0] = (uint8_t) idx; snprintf(human, hn, "oc1 with %d features, %s %s s", NF[idx % 5], idx / 20 ? "stalled for" : "feature answers delayed by", DL[idx / 5 % 4]); return 1; }
+	payload[0] = (uint8_t) idx; snprintf(human, hn, "oc1 with %d features, %s %s s", NF[idx % 5], idx / 20 ? "stalled for" : "feature answers delayed by", DL[idx / 5 % 4]);
+	if (idx >= 40) snprintf(human, hn, "track-output state confirmation %s", idx < 44 ? "late" : idx == 44 ? "never" : "with state OFF"); return 1; }
 void c20_register(void) { harness_register("c20.slow", slow_child); harness_register("c20.start", c20_child); harness_register("c20.vanish", vanish_child); harness_register("c20.hub", hub_child); }
 int c20_run(const char *tier) {
 	int thorough = !strcmp(tier, "thorough");
@@ -223,9 +236,9 @@ int c20_run(const char *tier) {
 	ex_map(&v); e.done += v.done; e.distinct_outcomes += v.distinct_outcomes; if (!v.exhaustive) e.exhaustive = 0;
 	ex_spec_t hb = { .harness = "c20.hub", .ncases = 96, .gen = hub_gen, .label = "c20.hub" };
 	ex_map(&hb); e.done += hb.done; e.distinct_outcomes += hb.distinct_outcomes; if (!hb.exhaustive) e.exhaustive = 0;
-	ex_spec_t sl = { .harness = "c20.slow", .ncases = 40, .gen = slow_gen, .label = "c20.slow" };
+	ex_spec_t sl = { .harness = "c20.slow", .ncases = 46, .gen = slow_gen, .label = "c20.slow" };
 	ex_map(&sl); e.done += sl.done; e.distinct_outcomes += sl.distinct_outcomes; if (!sl.exhaustive) e.exhaustive = 0;
-	rep_note("c20.slow: %ld start-ups with a slow or stalled board (5 feature counts x 4 delays x {late answers, stall}), %ld delayed messages delivered", sl.done, rep_get("delayed_messages_delivered"));
+	rep_note("c20.slow: %ld start-ups with a slow or stalled board (5 feature counts x 4 delays x {late answers, stall}; track-output state confirmed late x 4 / never / as OFF), %ld delayed messages delivered", sl.done, rep_get("delayed_messages_delivered"));
 	rep_note("c20.hub: %ld start-ups with configured boards beneath a hub the configuration does not mention", hb.done);
 	rep_note("c20.vanish: %ld cases (3 boards x GETNEXT #0..5 x {start-up, later reset}), table change applied in %ld", v.done, rep_get("table_changes_applied"));
 	rep_count("executions", e.done); rep_count("states", e.distinct_outcomes); rep_count("transitions", e.done * 2); rep_flag("exhaustive", e.exhaustive);
